@@ -12,3 +12,22 @@ Proof.
   replace (List.length (filter _ (snd (step s (EStartExecute c a t, h))))) with 1%nat by (symmetry; exact H).
   reflexivity.
 Qed.
+
+From VF Require Import Sched.ProofsArmed.
+
+(* the operation part of Spec.c06_dump never fires on a reachable model state *)
+Lemma c06_ops_ok : forall cfg t0 evs, fresh_calls [] evs ->
+  let s := fst (run (init cfg t0) evs) in
+  forallb (fun o => negb (Nat.eqb (do_waiters o) 0 && negb (do_mayexist o)
+                          && match do_cleanup o with None => true | Some _ => false end))
+          (d_ops (observe s)) = true.
+Proof.
+  intros cfg t0 evs Hf s. apply forallb_forall. intros d Hd. unfold observe in Hd. cbn [d_ops] in Hd.
+  apply in_map_iff in Hd. destruct Hd as [[o x] [Hd Hin]]. subst d. unfold observe_op. cbn.
+  destruct (waiters_all cfg t0 evs Hf) as [_ [_ [Hnd _]]].
+  apply (In_aget_NoDup Nat.eqb nat_eqb_eq _ _ _ Hnd) in Hin.
+  destruct (Nat.eqb (o_waiters x) 0) eqn:Ew; [|reflexivity]. apply Nat.eqb_eq in Ew.
+  destruct (o_mayexist x) eqn:Em; [reflexivity|]. cbn.
+  pose proof (armed_when_unwaited_all cfg t0 evs o x Hf Hin Ew Em) as Hc.
+  destruct (o_cleanup x); [reflexivity|congruence].
+Qed.
